@@ -179,6 +179,45 @@ fn aligned_facts<T: Elem>(elems: &Value, qlen: usize, misalign: usize) -> Value 
     json!({"body": req.body, "wire_paths_equal": frame == wire2, "view_ok": ok_view, "view_same": same_view, "borrowed": borrowed, "owned_same": owned_ok})
 }
 
+/// the real clients' aligned call: what they put on the wire for this query length (captured by a raw peer)
+pub struct Capture { addr: std::net::SocketAddr, rx: std::sync::mpsc::Receiver<Message>, sync: repe::Client, asy: repe::AsyncClient, rt: tokio::runtime::Runtime }
+impl Capture {
+    fn start() -> Capture {
+        let l = std::net::TcpListener::bind("127.0.0.1:0").unwrap();
+        let addr = l.local_addr().unwrap();
+        let (tx, rx) = std::sync::mpsc::channel();
+        std::thread::spawn(move || {
+            for s in l.incoming() {
+                let Ok(mut s) = s else { break };
+                let tx = tx.clone();
+                std::thread::spawn(move || {
+                    while let Ok(m) = repe::read_message(&mut s) {
+                        let resp = Message::builder().id(m.header.id).query_bytes(m.query.clone()).body_typed_slice::<u8>(&[]).build();
+                        let _ = tx.send(m);
+                        if repe::write_message(&mut s, &resp).is_err() { break; }
+                    }
+                });
+            }
+        });
+        let rt = tokio::runtime::Builder::new_current_thread().enable_all().build().unwrap();
+        let sync = repe::Client::connect(addr).unwrap();
+        let asy = rt.block_on(repe::AsyncClient::connect(addr)).unwrap();
+        Capture { addr, rx, sync, asy, rt }
+    }
+}
+fn aligned_client_facts<T: Elem>(elems: &Value, qlen: usize, cap: &Capture) -> Value {
+    let v: Vec<T> = elems_of(elems);
+    let path: String = if qlen == 0 { String::new() } else { format!("/{}", "a".repeat(qlen - 1)) };
+    let _ = cap.addr;
+    let d = std::time::Duration::from_secs(5);
+    let r1 = cap.sync.call_typed_slice_aligned_with_timeout::<_, T, u8>(&path, &v, d).map(|_| ()).map_err(|e| e.to_string());
+    let m1 = cap.rx.recv_timeout(d).ok();
+    let r2 = cap.rt.block_on(cap.asy.call_typed_slice_aligned_with_timeout::<_, T, u8>(&path, &v, d)).map(|_| ()).map_err(|e| e.to_string());
+    let m2 = cap.rx.recv_timeout(d).ok();
+    json!({"client": m1.map(|m| json!({"body": m.body, "qlen": m.query.len()})), "client_res": format!("{r1:?}"),
+           "async_client": m2.map(|m| json!({"body": m.body, "qlen": m.query.len()})), "async_client_res": format!("{r2:?}")})
+}
+
 fn layout_one<T: Elem>(v: &Value) -> Value {
     bulk_facts::<T>(&elems_of::<T>(&v["elems"]))
 }
@@ -196,6 +235,7 @@ pub fn vectors(a: &Args) -> i32 {
         }
     };
     let mut evals = 0u64;
+    let cap = Capture::start();
     for v in util::tlc_tagged_json(&a.req("vectors"), "VEC") {
         let kind = v["kind"].as_str().unwrap().to_string();
         *counts.entry(kind.clone()).or_insert(0) += 1;
@@ -248,6 +288,17 @@ pub fn vectors(a: &Args) -> i32 {
                     for k in ["wire_paths_equal", "view_ok", "view_same", "owned_same"] {
                         if f[k] != json!(true) {
                             bad.push((format!("aligned:{k}"), format!("{k} is false for class {class} code {code} qlen {q} misalign {m}")));
+                        }
+                    }
+                    // the real clients' aligned call must put the specification's aligned body on the wire for this query length
+                    if m == 0 {
+                        let cf = dispatch!(class, code, aligned_client_facts, &v["elems"], q, &cap);
+                        for who in ["client", "async_client"] {
+                            if cf[who].is_null() {
+                                bad.push((format!("aligned:{who}:no_request"), format!("{who}.call_typed_slice_aligned sent nothing (qlen {q}): {}", cf[format!("{who}_res")])));
+                            } else if cf[who]["qlen"] != json!(q) || bytes_of(&cf[who]["body"]) != bytes_of(&v["body"]) {
+                                bad.push((format!("aligned:{who}:bytes"), format!("{who}.call_typed_slice_aligned put body {} (query length {}) on the wire; specification for query length {q}: {}", cf[who]["body"], cf[who]["qlen"], v["body"])));
+                            }
                         }
                     }
                     if f["borrowed"] != v["borrowable"] {
